@@ -25,12 +25,20 @@ FuncVisit(m, nimp, j, n) ==
     [i \in 1 .. n |-> [mod |-> m, fid |-> nimp + j, idx |-> i - 1, end |-> (i = n),
                        opk |-> ExpectedOp(m, j, i - 1, n)]]
 
+\* md.repl = n > 0: before iterating, import 0 was replaced by a built function of n instructions
+\* (FunctionBuilder::replace_import_in_module): it is a local function now, under its old ID 0, and comes first
+Repl(md) == IF "repl" \in DOMAIN md THEN md.repl ELSE 0
+ReplVisit(m, md, sk) ==
+    IF Repl(md) = 0 \/ 0 \in sk THEN <<>>
+    ELSE [i \in 1 .. Repl(md) |-> [mod |-> m, fid |-> 0, idx |-> i - 1, end |-> (i = Repl(md)),
+                                   opk |-> ExpectedOp(m, 9, i - 1, Repl(md))]]
+
 RECURSIVE ModVisitR(_, _, _, _)
 ModVisitR(m, md, sk, j) ==       \* j: 1-based position in md.funcs
     IF j > Len(md.funcs) THEN <<>>
     ELSE (IF (md.nimp + j - 1) \in sk THEN <<>> ELSE FuncVisit(m, md.nimp, j - 1, md.funcs[j]))
          \o ModVisitR(m, md, sk, j + 1)
-ModVisit(m, md, sk) == ModVisitR(m, md, sk, 1)
+ModVisit(m, md, sk) == ReplVisit(m, md, sk) \o ModVisitR(m, md, sk, 1)
 
 RECURSIVE VisitR(_, _, _)
 VisitR(mods, skips, m) ==        \* m: 1-based module position
